@@ -266,6 +266,7 @@ func (l *Log) Served(pos Pos) ([]*Ev, bool) {
 type GenParams struct {
 	MaxUnits, MaxStmts, MaxTables, MaxRows, MaxCols, MaxFiles, MaxPayload int
 	SimpleCols                                                            bool
+	ExactCols                                                             int // > 0: every table has exactly this many columns
 }
 
 func randName(r *rand.Rand, n int) string {
@@ -289,6 +290,9 @@ func randCase(r *rand.Rand, s string) string {
 func genTable(r *rand.Rand, id uint64, gp GenParams) *Table {
 	t := &Table{ID: id, DB: "db" + randName(r, 1+r.Intn(4)), Name: "t" + randName(r, 1+r.Intn(6))}
 	n := 1 + r.Intn(gp.MaxCols)
+	if gp.ExactCols > 0 {
+		n = gp.ExactCols
+	}
 	for i := 0; i < n; i++ {
 		var c Col
 		if gp.SimpleCols {
